@@ -29,6 +29,7 @@ ASSUMPTIONS = [
     "one block per kind (the object model is keyed by tag)",
 ]
 TIMEOUT = {"quick": 900, "thorough": 8 * 3600}
+OPTIMIZED_SHARDS = ("rt02",)  # these shards also run under python -O
 NSH = 16
 
 
